@@ -18,26 +18,30 @@ func init() {
 		Clause: "C10/C18/C04 'bounds, hulls, areas and parities account for the whole polygon': a function that accumulates over all loops of a polygon (sum, union, exclusive-or, AddLoop) " +
 			"leaves its loop over the polygon's loops only when the loops are exhausted - no break and no return inside. The accumulating functions are listed with the reason; " +
 			"search loops (any/first) are not in the list.",
-		Min: 10,
+		Min: 11,
 		Run: runAllLoops,
 	})
 }
 
-var accumulatingOverLoops = []struct{ recv, name, what string }{
-	{"ConvexHullQuery", "AddPolygon", "adds every depth-0 loop to the hull input"},
-	{"Polygon", "Area", "signed sum of the loop areas"},
-	{"Polygon", "Centroid", "signed sum of the loop centroids"},
-	{"Polygon", "ReferencePoint", "exclusive-or of the loops' origin bits"},
-	{"Polygon", "ContainsPoint", "exclusive-or of the loops' brute-force containment"},
-	{"Polygon", "initLoopProperties", "vertex count, hole flag and bound over all loops"},
-	{"Polygon", "initEdgesAndIndex", "edge count and cumulative edge table over all loops"},
-	{"Polygon", "Invert", "every former sibling and every former descendant is kept"},
-	{"Polygon", "encodeLossless", "writes every loop"},
-	{"Polygon", "encodeCompressed", "writes every loop"},
+var accumulatingOverLoops = []struct{ recv, name, what, elem string }{
+	{"CrossingEdgeQuery", "getCellsForEdge", "collects the index cells met by every face segment of the query edge", "FaceSegment"},
+	{"ConvexHullQuery", "AddPolygon", "adds every depth-0 loop to the hull input", ""},
+	{"Polygon", "Area", "signed sum of the loop areas", ""},
+	{"Polygon", "Centroid", "signed sum of the loop centroids", ""},
+	{"Polygon", "ReferencePoint", "exclusive-or of the loops' origin bits", ""},
+	{"Polygon", "ContainsPoint", "exclusive-or of the loops' brute-force containment", ""},
+	{"Polygon", "initLoopProperties", "vertex count, hole flag and bound over all loops", ""},
+	{"Polygon", "initEdgesAndIndex", "edge count and cumulative edge table over all loops", ""},
+	{"Polygon", "Invert", "every former sibling and every former descendant is kept", ""},
+	{"Polygon", "encodeLossless", "writes every loop", ""},
+	{"Polygon", "encodeCompressed", "writes every loop", ""},
 }
 
 // rangesOverLoops: the loop's trip count is the length of a []*Loop (range statement or i < len(loops)).
-func rangesOverLoops(h *ssa.BasicBlock) bool {
+func rangesOverLoops(h *ssa.BasicBlock, elem string) bool {
+	if elem == "" {
+		elem = "Loop"
+	}
 	iff, ok := h.Instrs[len(h.Instrs)-1].(*ssa.If)
 	if !ok {
 		return false
@@ -58,7 +62,7 @@ func rangesOverLoops(h *ssa.BasicBlock) bool {
 		if !ok {
 			return false
 		}
-		return core.IsNamed(sl.Elem(), "s2", "Loop")
+		return core.IsNamed(sl.Elem(), "s2", elem)
 	}
 	return isLoopsLen(bo.X) || isLoopsLen(bo.Y)
 }
@@ -74,7 +78,7 @@ func runAllLoops(c *core.Ctx) []core.Obligation {
 		}
 		n, bad := 0, ""
 		for h, body := range loopsOf(fn) {
-			if !rangesOverLoops(h) {
+			if !rangesOverLoops(h, a.elem) {
 				continue
 			}
 			n++
@@ -84,17 +88,17 @@ func runAllLoops(c *core.Ctx) []core.Obligation {
 				}
 				for _, s := range b.Succs {
 					if !body[s] {
-						bad = fmt.Sprintf("the loop over the polygon's loops is left from inside its body (block %d, %s): the loops after that point are not accounted for (%s)", b.Index, b.Comment, a.what)
+						bad = fmt.Sprintf("the loop over all elements is left from inside its body (block %d, %s): the elements after that point are not accounted for (%s)", b.Index, b.Comment, a.what)
 					}
 				}
 				if _, isRet := b.Instrs[len(b.Instrs)-1].(*ssa.Return); isRet {
-					bad = fmt.Sprintf("the loop over the polygon's loops returns from inside its body: the remaining loops are not accounted for (%s)", a.what)
+					bad = fmt.Sprintf("the loop over all elements returns from inside its body: the remaining elements are not accounted for (%s)", a.what)
 				}
 			}
 		}
 		switch {
 		case n == 0:
-			obs = append(obs, core.Ob("R-ALLLOOPS", construct, c.Pos(fn.Pos()), core.FuncName(fn), core.Violated, "unresolved anchor: no loop over a []*Loop found"))
+			obs = append(obs, core.Ob("R-ALLLOOPS", construct, c.Pos(fn.Pos()), core.FuncName(fn), core.Violated, "unresolved anchor: no loop over the expected slice found"))
 		case bad != "":
 			obs = append(obs, core.Ob("R-ALLLOOPS", construct, c.Pos(fn.Pos()), core.FuncName(fn), core.Violated, bad))
 		default:
